@@ -26,3 +26,10 @@ package tequila
 //@    (exists k string :: Visited(k) && merge(old((*(*fullGraph).RelationList[k]).From)) != merge(old((*(*fullGraph).RelationList[k]).To)) &&
 //@        merge(old((*(*fullGraph).RelationList[k]).From)) + "->" + merge(old((*(*fullGraph).RelationList[k]).To)) == q)
 //@ loop 2 invariant (*fullGraph).RelationList == old((*fullGraph).RelationList)
+
+// C13, package clusters: a path is cut at every '/', a segment runs from start up to (not including) the next '/' after
+// its first character; the rest of the path is one segment
+//@ func PathSegmenter
+//@ ensures (len(path) == 0 || start < 0 || start > len(path) - 1) ==> result0 == "" && result1 == -1
+//@ ensures 0 <= start && start < len(path) && !Contains(path[start + 1:], "/") ==> result0 == path[start:] && result1 == -1
+//@ ensures 0 <= start && start < len(path) && Contains(path[start + 1:], "/") ==> result1 == start + 1 + IndexOf(path[start + 1:], "/") && result0 == path[start:start + 1 + IndexOf(path[start + 1:], "/")]
